@@ -144,15 +144,26 @@ def _dec(ct, data, off, little, fds):
         vsig, off = _dec('g', data, off, little, fds)
         if len(split(vsig)) != 1:
             raise RefError('variant must hold one complete type')
+        if _KEEP_VSIG[0]:
+            inner, off = _dec(vsig, data, off, little, fds)
+            return [vsig, inner], off
         return _dec(vsig, data, off, little, fds)
     raise RefError('bad type %r' % ct)
 
 
-def decode(sig, data, offset=0, little=True, fds=None):
-    """Returns (values, bytes_consumed)."""
+_KEEP_VSIG = [False]
+
+
+def decode(sig, data, offset=0, little=True, fds=None, keep_vsig=False):
+    """Returns (values, bytes_consumed).  keep_vsig: variants come back as [signature, value]."""
     off = offset
     vals = []
-    for ct in split(sig):
-        v, off = _dec(ct, data, off, little, fds)
-        vals.append(v)
+    saved = _KEEP_VSIG[0]
+    _KEEP_VSIG[0] = keep_vsig
+    try:
+        for ct in split(sig):
+            v, off = _dec(ct, data, off, little, fds)
+            vals.append(v)
+    finally:
+        _KEEP_VSIG[0] = saved
     return vals, off - offset
